@@ -169,6 +169,14 @@ class IH5MFRecord(IH5Record):
             # NOTE: as long as we enforce checksum of manifest, this failure can't happen:
             # if ubext.manifest_uuid != self._manifest.manifest_uuid:
             #     raise ValueError(f"{ub._filename}: Manifest file has wrong UUID!")
+        elif ub.hdf5_hashsum is None and len(ret._files) > 1:
+            # latest container is an uncommitted patch (it has no manifest yet):
+            # the latest manifest is the one linked by its predecessor (if any)
+            prev_ext = IH5UBExtManifest.get(ret._ublock(-2))
+            prev_file = cls._manifest_filepath(ret._files[-2].filename)
+            if prev_ext is not None and prev_file.is_file():
+                if prev_ext.manifest_hashsum == hashsum_file(prev_file):
+                    ret._manifest = IH5Manifest.parse_file(prev_file)
         # all looks good
         return ret
 
@@ -194,10 +202,10 @@ class IH5MFRecord(IH5Record):
         # if a manifest exists for the current dataset,
         # copy its manifest to overwrite the fresh one of the merged container
         # and fix its user block
-        if self._manifest is not None:
+        ext = IH5UBExtManifest.get(ub)
+        if self._manifest is not None and ext is not None:
             # check that new userblock inherited the original linked manifest
-            ext = IH5UBExtManifest.get(ub)
-            assert ext is not None and ext.manifest_uuid == self.manifest.manifest_uuid
+            assert ext.manifest_uuid == self.manifest.manifest_uuid
             # overwrite the "fresh" manifest from merge with the original one
             self.manifest.save(self._manifest_filepath(file))
 
